@@ -190,6 +190,89 @@ Theorem C14_tunnel_flag_pins :
 Proof. exact (conj reset_clears_src_ok (conj handshake_sets_src_ok (f_equal (@length _) parking_rule_src_ok))). Qed.
 Print Assumptions C14_tunnel_flag_pins.
 
+(* ---- line framing of the handshake ------------------------------------------------------ *)
+
+(* Everything the relay itself sends to the Go client during a handshake (the edited CFG, or
+   FAIL for whatever reason) ends with the terminator that client's reader needs: for every
+   client (on Windows or not, tunnel or not, Windows server or not), every relay (in tmux or
+   not), whatever the relay remembers from earlier transfers, whatever the server sends *)
+Theorem C14_client_terminator : forall e c cw0 confirm proto lang ver cfg,
+  ne_win_server e = cl_remote_win c ->
+  Forall (fun m => snd m = rn_client_terminator c)
+         (h2_to_client (rn_handshake2 e cw0 (rn_client_act_line c (rn_client_action c confirm proto lang ver)) cfg)).
+Proof. exact client_terminator. Qed.
+Print Assumptions C14_client_terminator.
+
+(* Between the Go client and the Go server a relay never misreads a line (it reads the ACT and
+   the server's CFG - framed with the newline of the ACT the server received - with the
+   matching reader): a confirmed handshake with a decodable CFG completes, the relay goes to
+   transferring, the client gets the narrowed CFG in its own framing *)
+Theorem C14_go_ends_complete : forall e c cw0 proto lang ver wc cc,
+  ne_win_server e = cl_remote_win c ->
+  nwc_escape wc = None ->
+  decode_config_into (rn_client_init (ne_win_server e) (cl_tunnel c)) wc = Some cc ->
+  let wa := rn_client_action c true proto lang ver in
+  let a := rewrite_action (decode_action_into relay_action_init wa) in
+  exists wc',
+    rn_handshake2 e cw0 (rn_client_act_line c wa) (Some (rn_server_line a (Some wc))) =
+      mkHs2 [(OAct (encode_action a), rn_nl_to_server e (cl_tunnel c) true)]
+            [(OCfg wc', rn_client_terminator c)] NTransferring (rn_client_windows c) /\
+    decode_config_into (rn_client_init (ne_win_server e) (cl_tunnel c)) wc' = Some (rewrite_config e cc).
+Proof. exact go_ends_complete. Qed.
+Print Assumptions C14_go_ends_complete.
+
+(* a relay writes towards its client in the framing it expects from its server side, and the
+   ACT towards its server in the framing it expects from its client side: relays in a chain
+   read each other *)
+Theorem C14_framing_transparent : forall e e' cw tun,
+  ne_win_server e' = ne_win_server e ->
+  rn_read_line (rn_reader_from_server e' cw tun) (nl_is_win (rn_nl_to_client e cw tun)) = RdOk /\
+  rn_read_line (rn_reader_from_client e' false) (nl_is_win (rn_nl_to_server e tun true)) = RdOk.
+Proof. exact framing_transparent. Qed.
+Print Assumptions C14_framing_transparent.
+
+(* with matching framings the framed handshake has the contents and the outcome of rn_handshake,
+   about which C14_narrow_* and C14_same_result speak *)
+Theorem C14_handshake2_refines : forall e cw0 aw act cfgw cfg,
+  rn_read_line (rn_reader_from_client e false) aw = RdOk ->
+  (forall a, act = Some a ->
+     rn_read_line (rn_reader_from_server e
+        (list_eqb (na_newline (rewrite_action (decode_action_into relay_action_init a))) relayneg_client_win_newline)
+        (na_tunnel (rewrite_action (decode_action_into relay_action_init a)))) cfgw = RdOk) ->
+  let r := rn_handshake2 e cw0 (mkRnLine aw act) (Some (mkRnLine cfgw cfg)) in
+  hs2_contents r = hs_contents (rn_handshake e act cfg) /\
+  h2_status r = status_after_handshake (rn_handshake e act cfg).
+Proof. exact handshake2_refines. Qed.
+Print Assumptions C14_handshake2_refines.
+
+(* the same statement for ANY line in place of the client's ACT is false: an ACT the relay
+   cannot decode leaves it with what it remembers (clientIsWindows is never reset; false on a
+   fresh relay).  Witness: fresh relay, Unix server, client on Windows, damaged ACT payload:
+   FAIL ends with "\n", which that client's reader does not take as a line. *)
+Definition C14_client_terminator_any_act_full : Prop := client_terminator_any_act.
+
+Theorem C14_client_terminator_any_act_refuted : ~ C14_client_terminator_any_act_full.
+Proof. exact client_terminator_any_act_refuted. Qed.
+Print Assumptions C14_client_terminator_any_act_refuted.
+
+(* the source facts behind the framing model: the four rules of the relay, the two of the
+   client, the terminators, the order of handshake() *)
+Theorem C14_framing_pins :
+  relayneg_to_client_rule_src = relayneg_from_server_rule_src /\
+  relayneg_to_client_win_nl = relayneg_client_line_win_nl /\ relayneg_to_client_nl = relayneg_client_cfg_newline /\
+  relayneg_client_act_win_nl = relayneg_client_win_newline /\
+  length relayneg_handshake_order = 155%nat /\
+  length relayneg_client_windows_rule_src = 65%nat /\ length relayneg_from_client_rule_src = 48%nat /\
+  length relayneg_to_server_rule_src = 66%nat.
+Proof. repeat split; reflexivity. Qed.
+Print Assumptions C14_framing_pins.
+
+(* the status automaton's "reset only from the expected state" is resetToStandby's
+   CompareAndSwap guard in the current source *)
+Theorem C14_reset_guard_pin : relayneg_reset_guard_is_cas = true.
+Proof. exact reset_guard_src_ok. Qed.
+Print Assumptions C14_reset_guard_pin.
+
 (* ---- the defect: the end sign is looked for chunk by chunk ------------------------------ *)
 
 (* what the property wants: whatever the chunking of the client's stream *)
@@ -267,3 +350,16 @@ Proof.
   cbn zeta. split; [| split; vm_compute; reflexivity].
   repeat constructor; intro H; vm_compute; split; reflexivity.
 Qed.
+
+(* a client on Windows behind a relay that sits in tmux, talking to trz -y on Linux: the
+   premises of C14_go_ends_complete hold, the CFG goes out with "!\n" *)
+Example C14_nonvacuous_windows_client :
+  let e := mkNEnv 1 120%Z false in
+  let c := mkRnClient true false false in
+  let wa := rn_client_action c true 4%Z [103;111] [49;46;49;46;56] in
+  let a := rewrite_action (decode_action_into relay_action_init wa) in
+  let wc := mkNWC None None None (Some true) (Some 20%Z) None (Some 4%Z) (Some 10485760%Z) None None None None None in
+  exists wc', rn_handshake2 e false (rn_client_act_line c wa) (Some (rn_server_line a (Some wc))) =
+     mkHs2 [(OAct (encode_action a), [10])] [(OCfg wc', [33; 10])] NTransferring true /\
+     nwc_junk wc' = Some true /\ nwc_pane_width wc' = Some 120%Z.
+Proof. vm_compute. eexists. repeat split. Qed.
